@@ -1,4 +1,469 @@
+/-
+Helper lemmas for C04 (integrity validation) and C09.
+-/
 import StunVerif.Spec.Builder
 import StunVerif.Lemmas.Builder
 namespace StunVerif
+open Spec
+
+/-! ### the decoders of the two integrity attributes as decision lists -/
+
+theorem fromRaw_mi (raw : RawAttr) (h : raw.ty = tyMI) :
+    fromRaw .messageIntegrity raw =
+      if raw.value.length < 20 then .error (.truncated 20 raw.value.length)
+      else if raw.value.length > 20 then .error (.tooLarge 20 raw.value.length)
+      else .ok (.messageIntegrity raw.value) := by
+  have hk : raw.ty = Kind.messageIntegrity.code := h
+  simp only [fromRaw, RawAttr.checkTypeAndLen, hk, checkLen, ne_eq, not_true, if_false,
+    bind, Except.bind]
+  by_cases h1 : raw.value.length < 20
+  · simp [h1]
+  · by_cases h2 : raw.value.length > 20
+    · simp [h1, h2]
+    · simp [h1, h2]
+
+theorem fromRaw_mi256 (raw : RawAttr) (h : raw.ty = tyMI256) :
+    fromRaw .messageIntegritySha256 raw =
+      if raw.value.length < 16 then .error (.truncated 16 raw.value.length)
+      else if raw.value.length > 32 then .error (.tooLarge 32 raw.value.length)
+      else if raw.value.length % 4 ≠ 0 then .error .invalid
+      else .ok (.messageIntegritySha256 raw.value) := by
+  have hk : raw.ty = Kind.messageIntegritySha256.code := h
+  simp only [fromRaw, RawAttr.checkTypeAndLen, hk, checkLen, ne_eq, not_true, if_false,
+    bind, Except.bind]
+  by_cases h1 : raw.value.length < 16
+  · simp [h1]
+  · by_cases h2 : raw.value.length > 32
+    · simp [h1, h2]
+    · simp [h1, h2]
+
+/-! ### the location scan -/
+
+/-- what the scan does with the attribute it was looking for -/
+def scanHit (H : Hashes) (key : Bytes) (algo : Algo) (mac : Bytes) (orig : Bytes) (off : Nat)
+    (attr : RawAttr) : Except PErr Algo :=
+  match algo with
+  | .sha1 =>
+    match fromRaw .messageIntegrity attr with
+    | .error e => .error e
+    | .ok (.messageIntegrity h) =>
+      if h ≠ mac then .error (.fault .panic)
+      else if off + 24 - 20 ≥ 65536 then .error (.fault .overflow)
+      else if H.hmacSha1 key (hmacInput orig off 24) = mac then .ok algo
+      else .error .integrityFailed
+    | .ok _ => .error (.fault .unreachable)
+  | .sha256 =>
+    match fromRaw .messageIntegritySha256 attr with
+    | .error e => .error e
+    | .ok (.messageIntegritySha256 h) =>
+      if h ≠ mac then .error (.fault .panic)
+      else if off + (attr.value.length + 4) - 20 ≥ 65536 then .error (.fault .overflow)
+      else if (H.hmacSha256 key (hmacInput orig off (attr.value.length + 4))).take mac.length = mac
+        then .ok algo
+      else .error .integrityFailed
+    | .ok _ => .error (.fault .unreachable)
+
+theorem validateScan_step (H : Hashes) (key : Bytes) (algo : Algo) (mac : Bytes) (fuel : Nat)
+    (orig data : Bytes) (off : Nat) (attr : RawAttr) (hne : data ≠ [])
+    (hr : rawFromBytes data = .ok attr) :
+    validateScan H key algo mac (fuel + 1) orig data off =
+      if attr.ty = integrityTy algo then scanHit H key algo mac orig off attr
+      else validateScan H key algo mac fuel orig (data.drop attr.paddedLen) (off + attr.paddedLen) := by
+  have hne' : data.isEmpty = false := by simpa using hne
+  rw [validateScan]
+  simp only [hne', Bool.false_eq_true, if_false, hr]
+  cases algo with
+  | sha1 =>
+    by_cases h : attr.ty = tyMI
+    · simp only [integrityTy, h, if_true, scanHit, decide_true, Bool.and_self]
+      rfl
+    · simp [integrityTy, h]
+  | sha256 =>
+    by_cases h : attr.ty = tyMI256
+    · simp only [integrityTy, h, if_true, scanHit, decide_true, Bool.and_self, reduceCtorEq,
+        decide_false, Bool.false_and, Bool.false_eq_true, if_false]
+      rfl
+    · simp [integrityTy, h]
+
+/-- on a tiled body the scan stops at the first attribute of the type it looks for -/
+theorem validateScan_tiles (H : Hashes) (key : Bytes) (algo : Algo) (mac : Bytes) (orig : Bytes) :
+    ∀ (fuel : Nat) (ts : List Tlv) (off o : Nat) (x : Tlv), (∀ t ∈ ts, t.wf) →
+    (ts.flatMap Tlv.enc).length < fuel → (ts.flatMap Tlv.enc).length < 65536 →
+    firstOfType (integrityTy algo) off ts = some (o, x) →
+    validateScan H key algo mac fuel orig (ts.flatMap Tlv.enc) off =
+      scanHit H key algo mac orig o x.raw := by
+  intro fuel
+  induction fuel with
+  | zero => intro ts off o x _ hl; omega
+  | succ n ih =>
+    intro ts off o x hwf hl h64 hf
+    cases ts with
+    | nil => simp [firstOfType] at hf
+    | cons t ts =>
+      have htwf : t.wf := hwf t (List.mem_cons_self ..)
+      have hwf' : ∀ u ∈ ts, u.wf := fun u hu => hwf u (List.mem_cons_of_mem _ hu)
+      rw [flatMap_cons_enc] at hl h64 ⊢
+      have hr := raw_step_enc t htwf (ts.flatMap Tlv.enc) (by omega)
+      have hp := Tlv.paddedLen_raw t htwf
+      have hlen : (t.enc ++ ts.flatMap Tlv.enc).length = t.enc.length + (ts.flatMap Tlv.enc).length :=
+        List.length_append
+      have h4 : 4 ≤ t.enc.length := by rw [Tlv.enc_length]; omega
+      rw [validateScan_step H key algo mac n orig _ off t.raw (Tlv.enc_ne_nil t) hr]
+      have hty : t.raw.ty = t.ty := rfl
+      rw [hty]
+      simp only [firstOfType] at hf
+      by_cases h : t.ty = integrityTy algo
+      · rw [if_pos h] at hf ⊢
+        simp only [Option.some.injEq, Prod.mk.injEq] at hf
+        obtain ⟨rfl, rfl⟩ := hf
+        rfl
+      · rw [if_neg h] at hf ⊢
+        rw [hp, drop_enc]
+        exact ih ts _ o x hwf' (by omega) (by omega) hf
+
+/-! ### `firstOfType` -/
+
+theorem firstOfType_find (ty : Nat) : ∀ (ts : List Tlv) (off : Nat),
+    (ts.map Tlv.raw).find? (·.ty = ty) = (firstOfType ty off ts).map (·.2.raw) := by
+  intro ts
+  induction ts with
+  | nil => intro off; rfl
+  | cons t ts ih =>
+    intro off
+    simp only [List.map_cons, firstOfType]
+    by_cases h : t.ty = ty
+    · have : t.raw.ty = ty := h
+      simp [this, h]
+    · have : ¬ t.raw.ty = ty := h
+      simp only [List.find?_cons, this, decide_false, h, if_false]
+      exact ih _
+
+/-- location facts of the first attribute of a type -/
+theorem firstOfType_split (ty : Nat) : ∀ (ts : List Tlv) (off o : Nat) (x : Tlv),
+    firstOfType ty off ts = some (o, x) →
+    ∃ pre post, ts = pre ++ x :: post ∧ (∀ t ∈ pre, t.ty ≠ ty) ∧ x.ty = ty ∧
+      o = off + (pre.flatMap Tlv.enc).length := by
+  intro ts
+  induction ts with
+  | nil => intro off o x h; simp [firstOfType] at h
+  | cons t ts ih =>
+    intro off o x h
+    simp only [firstOfType] at h
+    by_cases ht : t.ty = ty
+    · rw [if_pos ht] at h
+      simp only [Option.some.injEq, Prod.mk.injEq] at h
+      obtain ⟨rfl, rfl⟩ := h
+      exact ⟨[], ts, rfl, by simp, ht, by simp⟩
+    · rw [if_neg ht] at h
+      obtain ⟨pre, post, h1, h2, h3, h4⟩ := ih _ _ _ h
+      refine ⟨t :: pre, post, by rw [h1]; rfl, ?_, h3, ?_⟩
+      · intro u hu
+        rcases List.mem_cons.mp hu with rfl | hu
+        · exact ht
+        · exact h2 u hu
+      · rw [h4, flatMap_cons_enc, List.length_append]; omega
+
+theorem firstOfType_none (ty : Nat) : ∀ (ts : List Tlv) (off : Nat),
+    firstOfType ty off ts = none ↔ ∀ t ∈ ts, t.ty ≠ ty := by
+  intro ts
+  induction ts with
+  | nil => intro off; simp [firstOfType]
+  | cons t ts ih =>
+    intro off
+    simp only [firstOfType]
+    by_cases ht : t.ty = ty
+    · simp [ht]
+    · rw [if_neg ht, ih]
+      simp [ht]
+
+theorem firstOfType_bound (ty : Nat) (ts : List Tlv) (off o : Nat) (x : Tlv)
+    (h : firstOfType ty off ts = some (o, x)) :
+    off ≤ o ∧ o + x.enc.length ≤ off + (ts.flatMap Tlv.enc).length := by
+  obtain ⟨pre, post, rfl, _, _, rfl⟩ := firstOfType_split ty ts off o x h
+  simp only [List.flatMap_append, List.flatMap_cons, List.length_append]
+  omega
+
+/-! ### lookups among the exposed attributes -/
+
+theorem orderOk_cons_mi (rest : List Nat) :
+    orderOk (tyMI :: rest) = (rest.all isEnding && !rest.contains tyMI && orderOk rest) := by
+  rw [orderOk, if_neg (by decide), if_pos (by decide)]
+
+theorem orderOk_cons_fp (rest : List Nat) : orderOk (tyFP :: rest) = rest.isEmpty := by
+  rw [orderOk, if_pos rfl]
+
+theorem orderOk_cons_plain (t : Nat) (rest : List Nat) (h1 : t ≠ tyFP)
+    (h2 : isIntegrity t = false) : orderOk (t :: rest) = orderOk rest := by
+  rw [orderOk, if_neg h1, if_neg (by simp [h2])]
+
+/-- under the ordering rule the first MESSAGE-INTEGRITY-SHA256 is exposed -/
+theorem exposed_find_mi256 : ∀ (as : List RawAttr), orderOk (as.map (·.ty)) = true →
+    (exposed as).find? (·.ty = tyMI256) = as.find? (·.ty = tyMI256)
+  | [], _ => rfl
+  | a :: rest, h => by
+    by_cases hi : isIntegrity a.ty = true
+    · by_cases h256 : a.ty = tyMI256
+      · obtain ⟨tail, ht, _⟩ := exposed_cons_int a rest hi
+        rw [ht]; simp [h256]
+      · have hmi : a.ty = tyMI := by simpa [isIntegrity, h256] using hi
+        cases rest with
+        | nil => rw [exposed_int_nil _ hi]
+        | cons n rest' =>
+          rw [exposed_int_cons _ _ _ hi]
+          simp only [List.map_cons, hmi, orderOk_cons_mi, Bool.and_eq_true, List.all_cons,
+            Bool.not_eq_true', List.contains_cons, Bool.or_eq_false_iff, beq_eq_false_iff_ne] at h
+          obtain ⟨⟨⟨hne, _⟩, hnm, _⟩, ho⟩ := h
+          by_cases hn : n.ty = tyMI256
+          · rw [if_pos ⟨hmi, hn⟩]
+            simp [h256, hn]
+          · rw [if_neg (by simp [hn])]
+            have hfp : n.ty = tyFP := by
+              simp only [isEnding, Bool.or_eq_true, decide_eq_true_eq] at hne
+              rcases hne with (h' | h') | h'
+              · exact absurd h'.symm hnm
+              · exact absurd h' hn
+              · exact h'
+            rw [hfp, orderOk_cons_fp] at ho
+            have hr : rest' = [] := by
+              cases rest' with
+              | nil => rfl
+              | cons _ _ => simp at ho
+            subst hr
+            have e1 : ¬ tyMI = tyMI256 := by decide
+            have e2 : ¬ tyFP = tyMI256 := by decide
+            simp [hfp, hmi, e1, e2]
+    · have hi' : isIntegrity a.ty = false := by simpa using hi
+      have h256 : ¬ a.ty = tyMI256 := by
+        intro h'; simp [isIntegrity, h'] at hi'
+      rw [exposed_cons_nonint _ _ hi']
+      simp only [List.find?_cons, h256, decide_false]
+      by_cases hfp : a.ty = tyFP
+      · simp only [List.map_cons, hfp, orderOk_cons_fp] at h
+        have hr : rest = [] := by
+          cases rest with
+          | nil => rfl
+          | cons _ _ => simp at h
+        subst hr; rfl
+      · simp only [List.map_cons, orderOk_cons_plain _ _ hfp hi'] at h
+        exact exposed_find_mi256 rest h
+
+/-- without a MESSAGE-INTEGRITY-SHA256 the first MESSAGE-INTEGRITY is exposed -/
+theorem exposed_find_mi : ∀ (as : List RawAttr), as.find? (·.ty = tyMI256) = none →
+    (exposed as).find? (·.ty = tyMI) = as.find? (·.ty = tyMI)
+  | [], _ => rfl
+  | a :: rest, h => by
+    have h256 : ¬ a.ty = tyMI256 := by
+      intro h'; simp [h'] at h
+    have hrest : rest.find? (·.ty = tyMI256) = none := by
+      simpa [List.find?_cons, h256] using h
+    by_cases hi : isIntegrity a.ty = true
+    · have hmi : a.ty = tyMI := by simpa [isIntegrity, h256] using hi
+      obtain ⟨tail, ht, _⟩ := exposed_cons_int a rest hi
+      rw [ht]; simp [hmi]
+    · have hi' : isIntegrity a.ty = false := by simpa using hi
+      have hmi : ¬ a.ty = tyMI := by
+        intro h'; simp [isIntegrity, h'] at hi'
+      rw [exposed_cons_nonint _ _ hi']
+      simp only [List.find?_cons, hmi, decide_false]
+      exact exposed_find_mi rest hrest
+
+/-! ### the verdict at the attribute found -/
+
+theorem scanHit_sha256 (H : Hashes) (key orig : Bytes) (o : Nat) (x : Tlv) (hty : x.ty = tyMI256)
+    (h1 : ¬ x.value.length < 16) (h2 : ¬ x.value.length > 32) (h3 : ¬ x.value.length % 4 ≠ 0)
+    (hb : o + (x.value.length + 4) - 20 < 65536) :
+    scanHit H key .sha256 x.value orig o x.raw =
+      if (H.hmacSha256 key (hmacInput orig o (x.value.length + 4))).take x.value.length = x.value
+      then .ok .sha256 else .error .integrityFailed := by
+  have hv : x.raw.value = x.value := rfl
+  simp only [scanHit, fromRaw_mi256 x.raw hty, hv, if_neg h1, if_neg h2, if_neg h3, ne_eq,
+    not_true, if_false, if_neg (Nat.not_le.mpr hb)]
+
+theorem scanHit_sha1 (H : Hashes) (key orig : Bytes) (o : Nat) (x : Tlv) (hty : x.ty = tyMI)
+    (h1 : ¬ x.value.length < 20) (h2 : ¬ x.value.length > 20)
+    (hb : o + 24 - 20 < 65536) :
+    scanHit H key .sha1 x.value orig o x.raw =
+      if H.hmacSha1 key (hmacInput orig o 24) = x.value
+      then .ok .sha1 else .error .integrityFailed := by
+  have hv : x.raw.value = x.value := rfl
+  simp only [scanHit, fromRaw_mi x.raw hty, hv, if_neg h1, if_neg h2, ne_eq,
+    not_true, if_false, if_neg (Nat.not_le.mpr hb)]
+
+/-! ### `validate_integrity` on a well-formed buffer -/
+
+theorem wellFormedAs_iter (b : Bytes) (ts : List Tlv) (hw : WellFormedAs b ts) :
+    (⟨b⟩ : Msg).iter = exposed (ts.map Tlv.raw) := by
+  rw [← wellFormedAs_allAttrs b ts hw]
+  exact iterGo_eq_exposed _ _
+
+theorem wellFormedAs_raw_mi256 (b : Bytes) (ts : List Tlv) (hw : WellFormedAs b ts) :
+    (⟨b⟩ : Msg).rawAttribute tyMI256 = (firstOfType tyMI256 20 ts).map (·.2.raw) := by
+  unfold Msg.rawAttribute
+  rw [wellFormedAs_iter b ts hw, ← firstOfType_find]
+  apply exposed_find_mi256
+  rw [List.map_map]
+  exact hw.2.2.2.2.2.2.1
+
+theorem wellFormedAs_raw_mi (b : Bytes) (ts : List Tlv) (hw : WellFormedAs b ts)
+    (hn : firstOfType tyMI256 20 ts = none) :
+    (⟨b⟩ : Msg).rawAttribute tyMI = (firstOfType tyMI 20 ts).map (·.2.raw) := by
+  unfold Msg.rawAttribute
+  rw [wellFormedAs_iter b ts hw, ← firstOfType_find]
+  apply exposed_find_mi
+  rw [firstOfType_find tyMI256 ts 20, hn]; rfl
+
+/-- the scan of `validate_integrity` on a well-formed buffer -/
+theorem wellFormedAs_scan (H : Hashes) (key : Bytes) (algo : Algo) (mac : Bytes) (b : Bytes)
+    (ts : List Tlv) (hw : WellFormedAs b ts) (o : Nat) (x : Tlv)
+    (hf : firstOfType (integrityTy algo) 20 ts = some (o, x)) :
+    validateScan H key algo mac b.length b (b.drop 20) 20 = scanHit H key algo mac b o x.raw := by
+  obtain ⟨h20, _, _, hlen, hwf, htile, _, _⟩ := hw
+  have hdl : (ts.flatMap Tlv.enc).length = b.length - 20 := by rw [← htile, List.length_drop]
+  have h64 := beNat_take2_lt (b.drop 2)
+  rw [htile]
+  exact validateScan_tiles H key algo mac b b.length ts 20 o x hwf (by omega) (by omega) hf
+
+theorem wellFormedAs_first_bound (b : Bytes) (ts : List Tlv) (hw : WellFormedAs b ts) (ty o : Nat)
+    (x : Tlv) (hf : firstOfType ty 20 ts = some (o, x)) :
+    20 ≤ o ∧ o + 4 + x.value.length ≤ b.length ∧ b.length < 65536 + 20 := by
+  obtain ⟨h20, _, _, hlen, hwf, htile, _, _⟩ := hw
+  have hdl : (ts.flatMap Tlv.enc).length = b.length - 20 := by rw [← htile, List.length_drop]
+  have h64 := beNat_take2_lt (b.drop 2)
+  have := firstOfType_bound ty ts 20 o x hf
+  rw [Tlv.enc_length] at this
+  omega
+
+theorem validateIntegrity_wellFormed (H : Hashes) (b : Bytes) (ts : List Tlv) (c : Creds)
+    (hw : WellFormedAs b ts) :
+    (⟨b⟩ : Msg).validateIntegrity H c = Spec.validate H b ts c := by
+  unfold Msg.validateIntegrity Spec.validate
+  cases hf : firstOfType tyMI256 20 ts with
+  | some p =>
+    obtain ⟨o, x⟩ := p
+    obtain ⟨_, _, _, _, hty, _⟩ := firstOfType_split _ _ _ _ _ hf
+    have hb := wellFormedAs_first_bound b ts hw _ _ _ hf
+    have hv : x.raw.value = x.value := rfl
+    rw [wellFormedAs_raw_mi256 b ts hw, hf]
+    simp only [Option.map, fromRaw_mi256 x.raw hty, hv]
+    by_cases h1 : x.value.length < 16
+    · simp only [if_pos h1]
+    · by_cases h2 : x.value.length > 32
+      · simp only [if_neg h1, if_pos h2]
+      · by_cases h3 : x.value.length % 4 ≠ 0
+        · simp only [if_neg h1, if_neg h2, if_pos h3]
+        · simp only [if_neg h1, if_neg h2, if_neg h3]
+          rw [wellFormedAs_scan H _ .sha256 _ b ts hw o x hf,
+            scanHit_sha256 H _ b o x hty h1 h2 h3 (by omega)]
+  | none =>
+    rw [wellFormedAs_raw_mi256 b ts hw, hf, wellFormedAs_raw_mi b ts hw hf]
+    cases hf1 : firstOfType tyMI 20 ts with
+    | some p =>
+      obtain ⟨o, x⟩ := p
+      obtain ⟨_, _, _, _, hty, _⟩ := firstOfType_split _ _ _ _ _ hf1
+      have hb := wellFormedAs_first_bound b ts hw _ _ _ hf1
+      have hv : x.raw.value = x.value := rfl
+      simp only [Option.map, fromRaw_mi x.raw hty, hv]
+      by_cases h1 : x.value.length < 20
+      · simp only [if_pos h1]
+      · by_cases h2 : x.value.length > 20
+        · simp only [if_neg h1, if_pos h2]
+        · simp only [if_neg h1, if_neg h2]
+          rw [wellFormedAs_scan H _ .sha1 _ b ts hw o x hf1,
+            scanHit_sha1 H _ b o x hty h1 h2 (by omega)]
+    | none => rfl
+
+theorem validate_no_fault (H : Hashes) (b : Bytes) (ts : List Tlv) (c : Creds) (f : Fault) :
+    Spec.validate H b ts c ≠ .error (.fault f) := by
+  unfold Spec.validate
+  intro h
+  repeat' split at h
+  all_goals cases h
+
+/-! ### the HMAC input -/
+
+@[simp] theorem setLen_length (l : Bytes) (n : Nat) : (setLen l n).length = l.length := by
+  unfold setLen; split <;> simp
+
+theorem setLen_getElem? (l : Bytes) (n i : Nat) (h2 : i ≠ 2) (h3 : i ≠ 3) :
+    (setLen l n)[i]? = l[i]? := by
+  unfold setLen
+  split
+  · match i, h2, h3 with
+    | 0, _, _ => rfl
+    | 1, _, _ => rfl
+    | 2, h2, _ => exact absurd rfl h2
+    | 3, _, h3 => exact absurd rfl h3
+    | i + 4, _, _ => simp
+  · rfl
+
+theorem setLen_inj (l l' : Bytes) (n : Nat) (h : setLen l n = setLen l' n) (h4 : 4 ≤ l.length)
+    (h4' : 4 ≤ l'.length) (h2 : (l.drop 2).take 2 = (l'.drop 2).take 2) : l = l' := by
+  match l, l', h4, h4' with
+  | t0 :: t1 :: a :: b :: r, t0' :: t1' :: a' :: b' :: r', _, _ =>
+    simp only [setLen, List.cons.injEq, true_and] at h
+    simp only [List.drop_succ_cons, List.drop_zero, List.take_succ_cons, List.take_zero,
+      List.cons.injEq, and_true] at h2
+    obtain ⟨rfl, rfl, rfl⟩ := h
+    obtain ⟨rfl, rfl⟩ := h2
+    rfl
+
+theorem hmacInput_length (d : Bytes) (off e : Nat) (h : off ≤ d.length) :
+    (hmacInput d off e).length = off := by
+  unfold hmacInput
+  rw [setLen_length, List.length_take]; omega
+
+/-- the length field of a well-formed buffer is determined by the buffer length -/
+theorem wellFormedAs_lenField (b : Bytes) (ts : List Tlv) (hw : WellFormedAs b ts) :
+    (b.drop 2).take 2 = encBE 2 (b.length - 20) := by
+  obtain ⟨h20, _, _, hlen, _⟩ := hw
+  have hl : ((b.drop 2).take 2).length = 2 := by
+    rw [List.length_take, List.length_drop]; omega
+  rw [← encBE_beNat 2 _ hl]
+  congr 1; omega
+
+/-- the bytes of a well-formed buffer from its first attribute of type `ty` on -/
+theorem wellFormedAs_drop_first (b : Bytes) (ts : List Tlv) (hw : WellFormedAs b ts) (ty o : Nat)
+    (x : Tlv) (hf : firstOfType ty 20 ts = some (o, x)) :
+    x.ty = ty ∧ ∃ rest, b.drop o = enc16 ty ++ enc16 x.value.length ++ x.value ++ rest := by
+  obtain ⟨pre, post, hts, _, hty, ho⟩ := firstOfType_split _ _ _ _ _ hf
+  refine ⟨hty, x.pad ++ post.flatMap Tlv.enc, ?_⟩
+  obtain ⟨_, _, _, _, _, htile, _, _⟩ := hw
+  rw [ho, ← List.drop_drop, htile, hts, List.flatMap_append, List.drop_left, flatMap_cons_enc,
+    Tlv.enc, hty]
+  simp only [List.append_assoc]
+
+/-- same HMAC input and same MAC: the buffers agree up to the end of the integrity attribute -/
+theorem tamper_core (b b' : Bytes) (ts ts' : List Tlv) (ty : Nat)
+    (off off' : Nat) (x x' : Tlv)
+    (hw : WellFormedAs b ts) (hw' : WellFormedAs b' ts') (hlen : b.length = b'.length)
+    (hf : firstOfType ty 20 ts = some (off, x))
+    (hf' : firstOfType ty 20 ts' = some (off', x'))
+    (hin : hmacInput b off (x.value.length + 4) = hmacInput b' off' (x'.value.length + 4))
+    (hmac : x.value = x'.value) :
+    b.take (off + 4 + x.value.length) = b'.take (off + 4 + x.value.length) := by
+  have hb := wellFormedAs_first_bound b ts hw ty off x hf
+  have hb' := wellFormedAs_first_bound b' ts' hw' ty off' x' hf'
+  have hoff : off = off' := by
+    have := congrArg List.length hin
+    rw [hmacInput_length _ _ _ (by omega), hmacInput_length _ _ _ (by omega)] at this
+    exact this
+  subst hoff
+  have hvl : x'.value.length = x.value.length := by rw [hmac]
+  rw [hvl] at hin
+  unfold hmacInput at hin
+  have htake : b.take off = b'.take off := by
+    refine setLen_inj _ _ _ hin (by rw [List.length_take]; omega)
+      (by rw [List.length_take]; omega) ?_
+    rw [List.drop_take, List.drop_take, List.take_take, List.take_take,
+      Nat.min_eq_left (by omega), wellFormedAs_lenField b ts hw,
+      wellFormedAs_lenField b' ts' hw', hlen]
+  obtain ⟨_, rest, hd⟩ := wellFormedAs_drop_first b ts hw ty off x hf
+  obtain ⟨_, rest', hd'⟩ := wellFormedAs_drop_first b' ts' hw' ty off x' hf'
+  have ht : ∀ r : Bytes, (enc16 ty ++ enc16 x.value.length ++ x.value ++ r).take
+      (4 + x.value.length) = enc16 ty ++ enc16 x.value.length ++ x.value :=
+    fun r => List.take_left' (by simp; omega)
+  rw [show off + 4 + x.value.length = off + (4 + x.value.length) by omega,
+    List.take_add (l := b) (i := off), List.take_add (l := b') (i := off), htake, hd, hd',
+    ← hmac, ht, ht]
+
 end StunVerif
